@@ -21,6 +21,7 @@ RULE = (
     "(d=3 quick: one per conjugacy class + 2); torus translations. Non-trivial: >=1 non-zero output block and g != e; "
     "a layer returning no blocks is not counted. Distinct by configuration."
 )
+RULE += " Also: equal-channel and wide (64) layers, single-pixel banks, long-reach dilation on 2-4 pixel tori (every 6th case), structured special parameter values (every 5th case), lattice mode; flags x padding by a covering schedule."
 ASSUMPTIONS = ["reference action; harness-built invariant banks (vmon/ref/invariant.py)", "tolerance: defect <= 1e-4 held, >= 1e-3 violated, between: re-drawn"]
 ANCHORS = ["ginjax.ml.layers:ConvContract.__init__", "ginjax.ml.layers:ConvContract.individual_convolve", "ginjax.ml.layers:ConvContract.__call__"]
 MIN_NONTRIVIAL = {"quick": 30, "thorough": 400}
